@@ -31,10 +31,13 @@ def run(P, C):
         ins = [i for i, cal in f.calls() if cal and cal["name"] == "insertEntry"]
         ok = False
         if len(ins) == 1:
-            ifs = [a for a in f.ancestors(ins[0]) if f.k(a) == "IfStmt"]
-            cond = f.alpha(f.nodes[ifs[0]]["cond"])[0].replace(" ", "") if ifs else ""
+            # what holds on every path to the insertion (enclosing if, or an earlier `if (...) continue;`): the inserted coefficient is non-zero
+            from .dp import path_facts
+            a0 = f.render(f.args(ins[0])[0]).replace(" ", "")
+            facts = path_facts(f, ins[0])
+            nonzero = any((a == a0 and op == "!=" and b in ("0", "0.0")) or (b == a0 and op == "!=" and a in ("0", "0.0")) for (a, op, b) in facts)
             args = [f.alpha(a)[0].replace(" ", "") for a in f.args(ins[0])]
-            ok = cond == "(coefficients[v0]!=0)" and args[0] == "coefficients[v0]" and args[1].endswith(".data()")
+            ok = nonzero and len(facts) == 1 and args[0] == "coefficients[v0]" and args[1].endswith(".data()")
         C.ob("GE-1", name, "non-zero-entries", ok, f.loc(ins[0]) if ins else f.where(), "exactly the non-zero coefficients are inserted with their index tuple")
         rng = [f.alpha(i)[0].replace(" ", "") for i in f.walk() if ts.assign_parts(f, i) and "ranges[" in f.render(ts.assign_parts(f, i)[0])]
         C.ob("GE-1", name, "ranges", len(rng) == 1 and rng[0].endswith("->ranges[v1]=naxes[v1])") and "v0" in rng[0], f.where(),
